@@ -56,6 +56,7 @@ type Sub struct {
 	Exhaustive    bool   // Gen enumerates a finite space completely
 	DistinctByGen bool   // payloads are pairwise distinct by construction
 	Serial        bool   // run on one goroutine (sub-checks that install global hooks)
+	Batch         int    // payloads per hand-over to a shard (default 256); 1 spreads a handful of heavy payloads over all shards
 	Floor         int    // fewer executed cases than this => inconclusive
 	Gen           func(emit func(payload string))
 	Exec          func(c *Case)
@@ -327,7 +328,10 @@ func runSubs(subs []*Sub, only string) *runResult {
 			shards[i] = newShard(i)
 			shards[i].slot = slotFor(i)
 		}
-		const batch = 256
+		batch := 256 // payloads handed to a shard at a time; sub-checks with few, heavy payloads set Batch to 1
+		if sub.Batch > 0 {
+			batch = sub.Batch
+		}
 		ch := make(chan []string, 4*n)
 		var wg sync.WaitGroup
 		for i := 0; i < n; i++ {
